@@ -63,12 +63,15 @@ def plant_api(asm, acc, fault_class, fault, pos, depth, compress, root=None):
         # chain of files: main includes d1 includes d2 ...; the deepest holds the planted program
         names = ['main.asm'] + ['d%d.asm' % i for i in range(1, depth + 1)]
         extra = 0
+        lead = [[], ['', ''], ['   ', '# header comment', ''], ['\t']][(pos + 2 * depth) % 4]      # blank lines count as lines
         if (pos + depth) % 2 == 0:
             # a binary include that resolves fine sits before the planted line in the same file
             with open(os.path.join(root, 'blob.bin'), 'wb') as f:
                 f.write(b'\x01\x02\x03\x04')
             lines = ['include_bytes blob.bin'] + lines
             extra = 1
+        lines = lead + lines
+        extra += len(lead)
         for i, n in enumerate(names):
             p = os.path.join(root, n)
             if i == depth:
